@@ -44,6 +44,7 @@ def dispatch (op : String) (j : Json) : Except String Json :=
   | "sum" => Drv.sumOp j
   | "brackets" => Drv.brackets j
   | "restrict" => Drv.restrict j
+  | "sum_scope" => Drv.sumScope j
   | "marr" => Drv.marr j
   | "domain" => Drv.domainOp j
   | "schema_validate" => Drv.schemaValidate j
